@@ -154,7 +154,7 @@ class Report:
             if nat and n_native < 24 and n_repro < 4:
                 n_native += 1
                 try:
-                    res = native.replay(nat, ob.model, ob.info)
+                    res = native.replay(nat, ob.model, dict(ob.info or {}, obligation=ob.name))
                     rep['native'] = res
                     rep['replayed'] = bool(res.get('reproduced'))
                     n_repro += rep['replayed']
